@@ -123,7 +123,7 @@ type Machine struct {
 	allocTrack  bool
 	allocEvents int
 	allocSites  []string
-	owner      string
+	owner       string
 
 	steps       int64
 	stepLimit   int64
